@@ -220,10 +220,22 @@ fn gen_code_case(r: &mut Rng) -> (Vec<SynthDataOp>, Vec<SynthCodeOp>) {
         if let SynthDatum::Word(w) = &mut e.datum { if r.chance(1, 2) { *w = 1000 + k; } }
         dops.push(SynthDataOp::Insert(e));
     }
+    // half of the cases: at least one configurable AND a non-copy non-configurable entry that is loaded, so
+    // that a pointer word is appended in front of the configurables and named offsets must be the FINAL ones
+    let force = r.chance(1, 2);
+    if force {
+        let tag = r.next();
+        dops.push(SynthDataOp::Insert(SynthEntry { name: None, datum: SynthDatum::ByteArray(tag.to_be_bytes().iter().chain([1u8, 2, 3].iter()).copied().collect()), padding: None }));
+        dops.push(SynthDataOp::Insert(SynthEntry { name: Some((*r.pick(&["A", "B", "C", "D"])).to_string()), datum: SynthDatum::ByteArray(gen_bytes(r, 24)), padding: None }));
+    }
     let rep = hook::data_section_layout(&dops);
     let ids: Vec<(bool, u32)> = rep.ids.clone();
     let m = 1 + r.below(8);
     let mut code = vec![];
+    if force {
+        let (nc, cf) = (ids[ids.len() - 2], ids[ids.len() - 1]);
+        if r.chance(1, 2) { code.push(SynthCodeOp::Addr(cf)); code.push(SynthCodeOp::Load(nc)); } else { code.push(SynthCodeOp::Load(nc)); code.push(SynthCodeOp::Addr(cf)); }
+    }
     for _ in 0..m {
         let id = *r.pick(&ids);
         let id = if r.chance(1, 30) { (id.0, id.1 + 7) } else { id };
@@ -347,8 +359,25 @@ fn lit(t: &Ty, v: &Val, d: &Decls) -> String {
         _ => unreachable!("ill-typed value"),
     }
 }
-fn program_source(tys: &[Ty], defaults: &[Val], d: &Decls) -> String {
+/// Source of "extra" `k`: a helper fn holding local constants larger than a word (loaded through a non-copy
+/// `LoadDataId`, so `to_bytecode_mut` appends a pointer word in FRONT of the configurables), and the statement
+/// that logs its result after the configurables' logs. `kind` selects b256 / u256 / str array / b256::zero().
+fn extra_source(k: usize, kind: u64, salt: u64) -> (String, String) {
+    let h = |x: u64| format!("{:016x}{:016x}{:016x}{:016x}", x, x ^ 0x5555, x.rotate_left(17), !x);
+    let (a, b) = (h(salt.wrapping_mul(2 * k as u64 + 3) | 1), h(salt.wrapping_add(k as u64) | 2));
+    let f = match kind % 4 {
+        0 => format!("fn extra{k}(c: u64) -> b256 {{\n    let mut v: b256 = 0x{a};\n    if c == 0 {{ v = 0x{b}; }}\n    v\n}}\n"),
+        1 => format!("fn extra{k}(c: u64) -> u256 {{\n    let mut v: u256 = 0x{a}u256;\n    if c == 0 {{ v = 0x{b}u256; }}\n    v\n}}\n"),
+        2 => format!("fn extra{k}(c: u64) -> str[11] {{\n    let mut v: str[11] = __to_str_array(\"extra{k:02}_aaa\");\n    if c == 0 {{ v = __to_str_array(\"extra{k:02}_bbb\"); }}\n    v\n}}\n"),
+        _ => format!("fn extra{k}(c: u64) -> bool {{\n    let mut v: b256 = 0x{a};\n    if c == 0 {{ v = b256::zero(); }}\n    v == b256::zero()\n}}\n"),
+    };
+    (f, format!("    log(extra{k}(std::registers::context_gas()));\n"))
+}
+
+fn program_source(tys: &[Ty], defaults: &[Val], d: &Decls, extras: &[u64], salt: u64) -> String {
     let mut s = String::from("script;\n");
+    let ex: Vec<(String, String)> = extras.iter().enumerate().map(|(k, kind)| extra_source(k, *kind, salt)).collect();
+    for (f, _) in &ex { s.push_str(f); }
     for (i, f) in d.structs.iter().enumerate() {
         s.push_str(&format!("struct S{i} {{ {} }}\n", f.iter().enumerate().map(|(k, t)| format!("f{k}: {}", ty_name(t))).collect::<Vec<_>>().join(", ")));
     }
@@ -361,6 +390,7 @@ fn program_source(tys: &[Ty], defaults: &[Val], d: &Decls) -> String {
     }
     s.push_str("}\nfn main() {\n");
     for j in 0..tys.len() { s.push_str(&format!("    log(C{j});\n")); }
+    for (_, l) in &ex { s.push_str(l); }
     s.push_str("}\n");
     s
 }
@@ -456,7 +486,7 @@ fn hexlist(v: &[Vec<u8>]) -> String {
 }
 
 /// One program: build, run unpatched, then patch every configurable with `per_cfg` new values each.
-fn e2e_program(prog_seed: u64, forced: Option<(Vec<Ty>, Decls)>, per_cfg: usize, out: &mut dyn Write) -> usize {
+fn e2e_program(prog_seed: u64, forced: Option<(Vec<Ty>, Decls)>, per_cfg: usize, n_extras: Option<usize>, out: &mut dyn Write) -> usize {
     let mut r = Rng::new(prog_seed);
     let (tys, decls) = match forced {
         Some(f) => f,
@@ -476,15 +506,22 @@ fn e2e_program(prog_seed: u64, forced: Option<(Vec<Ty>, Decls)>, per_cfg: usize,
     }
     let enc: Vec<Vec<u8>> = tys.iter().zip(&defaults).map(|(t, v)| { let mut o = vec![]; encode(t, v, &decls, &mut o); o }).collect();
     let tdesc = tys.iter().map(|t| ty_desc(t, &decls)).collect::<Vec<_>>().join("|");
-    let head = format!("seed={prog_seed} t={tdesc} d={}", hexlist(&enc));
+    let head_of = |x: usize| format!("seed={prog_seed} x={x} t={tdesc} d={}", hexlist(&enc));
     let dir = scratch_dir("c13");
-    let src = program_source(&tys, &defaults, &decls);
+    // 0-4 local constants larger than a word next to the configurables (2/3 of the programs have at least one)
+    let n_extras = n_extras.unwrap_or_else(|| if r.chance(1, 3) { 0 } else { 1 + r.below(4) as usize });
+    let extras: Vec<u64> = (0..n_extras).map(|_| r.below(4)).collect();
+    let src = program_source(&tys, &defaults, &decls, &extras, prog_seed);
     let built = build_script(&dir, &src, tys.len());
     let _ = std::fs::remove_dir_all(&dir);
+    let head = head_of(n_extras);
     let built = match built {
         Err(e) => { writeln!(out, "build {head} ;; {e}").unwrap(); return 1; }
         Ok(b) => b,
     };
+    // the extras' logs follow the configurables' logs; they are dropped from the observation when all are present
+    let n_cfg = tys.len();
+    let trim = move |mut l: Vec<Vec<u8>>| -> Vec<Vec<u8>> { if l.len() == n_cfg + n_extras { l.truncate(n_cfg); } l };
     let mut lines = 0;
     let offs: Vec<u64> = built.offsets.iter().map(|o| o.unwrap_or(u64::MAX)).collect();
     let offs_s = built.offsets.iter().map(|o| o.map(|x| x.to_string()).unwrap_or("none".into())).collect::<Vec<_>>().join(",");
@@ -493,7 +530,7 @@ fn e2e_program(prog_seed: u64, forced: Option<(Vec<Ty>, Decls)>, per_cfg: usize,
         if o.checked_add(e.len()).map(|end| end <= built.bytes.len()).unwrap_or(false) { built.bytes[o..o + e.len()].to_vec() } else { vec![] }
     }).collect();
     let lens: Vec<usize> = enc.iter().map(|e| e.len()).collect();
-    let obs = match run_vm(&built.bytes) { Ok(l) => format!("observed={}", hexlist(&canon_logs(l, &lens))), Err(e) => e };
+    let obs = match run_vm(&built.bytes) { Ok(l) => format!("observed={}", hexlist(&canon_logs(trim(l), &lens))), Err(e) => e };
     writeln!(out, "base {head} offs={offs_s} len={} ;; at={} {obs}", built.bytes.len(), hexlist(&at)).unwrap();
     lines += 1;
     for j in 0..tys.len() {
@@ -508,7 +545,7 @@ fn e2e_program(prog_seed: u64, forced: Option<(Vec<Ty>, Decls)>, per_cfg: usize,
             let obs = if o.checked_add(ne.len()).map(|end| end <= built.bytes.len()).unwrap_or(false) {
                 let mut b = built.bytes.clone();
                 b[o..o + ne.len()].copy_from_slice(&ne);
-                match run_vm(&b) { Ok(l) => format!("observed={}", hexlist(&canon_logs(l, &lens))), Err(e) => e }
+                match run_vm(&b) { Ok(l) => format!("observed={}", hexlist(&canon_logs(trim(l), &lens))), Err(e) => e }
             } else { "offset-out-of-range".to_string() };
             writeln!(out, "patch {head} j={j} new={} ;; {obs}", if ne.is_empty() { "e".into() } else { hex::encode(&ne) }).unwrap();
             lines += 1;
@@ -562,7 +599,9 @@ fn main() {
         for l in &corpus {
             let f: Vec<&str> = l.split_whitespace().collect();
             match f.as_slice() {
-                ["prog", s] => { cases += 1; e2e_program(s.parse().unwrap(), None, 2, &mut out); }
+                ["prog", s] => { cases += 1; e2e_program(s.parse().unwrap(), None, 2, None, &mut out); }
+                // `progx <seed> <k>`: generated program with exactly k local large constants
+                ["progx", s, k] => { cases += 1; e2e_program(s.parse().unwrap(), None, 2, Some(k.parse().unwrap()), &mut out); }
                 // finding (layout instability of to_bytecode_mut): `[u64; n]` constant sized so that the pointer words
                 // appended for the two b256 literals move configurable C0 across the 12-bit ADDI limit
                 ["unstable", n] => {
@@ -579,7 +618,7 @@ fn main() {
                 ["big", n] => {
                     cases += 1;
                     let n: usize = n.parse().unwrap();
-                    e2e_program(n as u64, Some((vec![Ty::U8, Ty::Array(Box::new(Ty::U64), n), Ty::U16], Decls::default())), 1, &mut out);
+                    e2e_program(n as u64, Some((vec![Ty::U8, Ty::Array(Box::new(Ty::U64), n), Ty::U16], Decls::default())), 1, Some(0), &mut out);
                 }
                 _ => {}
             }
@@ -587,7 +626,7 @@ fn main() {
         let mut progs = 0;
         while progs < a.n {
             let s = r.next();
-            e2e_program(s, None, 2, &mut out);
+            e2e_program(s, None, 2, None, &mut out);
             progs += 1; cases += 1;
         }
     }
